@@ -132,3 +132,10 @@ Theorem C04_cross_rotator_steps_in_source :
   cpcca_rot_transform_fields = [("X", "components1", "norm1", "preprocessor1"); ("Y", "components2", "norm2", "preprocessor2")]%string.
 Proof. exact tie_cross_rotator_steps. Qed.
 Print Assumptions C04_cross_rotator_steps_in_source.
+
+(* the functions of this property whose Gallina counterpart is hand-written (or that only the oracles reach) still read, statement by statement, as they did when
+   the model was last validated against them (Gen/T9text.v regenerated from the source on every run; Proofs/Text_C04.v holds the validated text) *)
+From XV Require Gen.T9text Proofs.Text_C04.
+Theorem C04_hand_modelled_functions_read_as_validated : Text_C04.all_frozen.
+Proof. exact Text_C04.all_frozen_holds. Qed.
+Print Assumptions C04_hand_modelled_functions_read_as_validated.
